@@ -1,0 +1,15 @@
+//go:build verif
+
+package node
+
+// SimYield, when set, is called at statement-level points of the message
+// handler (between loading a round and applying a message to it, after the
+// message was applied, before the round is saved), so that a simulator can
+// run another request of the same process there.
+var SimYield func(point string)
+
+func simYield(point string) {
+	if SimYield != nil {
+		SimYield(point)
+	}
+}
